@@ -36,7 +36,7 @@ COMPONENTS = {
 }
 PROBES = ["subscribe-duplicate", "unsubscribe-all", "node-replaced", "node-removed", "frame-for-dead-node", "error-frame", "remote-frame",
           "duplicate-frame", "extended-id-sent", "extended-id-received", "extra-sdo-channel", "scanner-reset", "node-re-added",
-          "unsubscribe-all-on-node-id", "removal-refused-after-application-unsubscribed-node-id", "subscriptions-changed-during-dispatch", "listeners-stopped-and-reused", "coarse-or-missing-receive-timestamps"]
+          "unsubscribe-all-on-node-id", "removal-refused-after-application-unsubscribed-node-id", "subscriptions-changed-during-dispatch", "listeners-stopped-and-reused", "coarse-or-missing-receive-timestamps", "notify-entered-again-during-dispatch"]
 # probes that mark an injected disturbance; the runner also counts them as fired faults in the evidence
 FAULT_PROBES = {'duplicate-frame': 'duplicate-frame', 'error-frame': 'error-frame', 'frame-for-dead-node': 'frame-for-removed-node', 'remote-frame': 'remote-frame'}
 
@@ -383,9 +383,63 @@ def _check_sent(ctx, w, can_id, data, remote, periodic):
     ctx.cover(("tx", periodic, can_id > 0x7FF, remote, len(data)))
 
 
+def _loopback(ctx):
+    """A Network whose send_message() (the documented integration point for custom interfaces) echoes every transmitted
+    frame straight back into notify(): a LocalNode's SDO server answers from inside the dispatch of the request, so notify()
+    is entered again on the same Network while the callbacks of the request's CAN id are still being invoked."""
+    nid = 1 + ctx.choice(127, "node")
+    log = []
+
+    class LoopNet(canopen.Network):
+        def send_message(self, can_id, data, remote=False):
+            self.notify(can_id, bytearray(data), 7.0)
+
+    net = LoopNet()
+    od = canopen.ObjectDictionary()
+    v = canopen.objectdictionary.ODVariable("X", 0x2000, 0)
+    v.data_type = canopen.objectdictionary.UNSIGNED16
+    v.default = 0x1234
+    od.add_object(v)
+    req_id, rsp_id = 0x600 + nid, 0x580 + nid
+    nreq_before, nreq_after, nrsp = ctx.choice(3, "nbefore"), 1 + ctx.choice(3, "nafter"), 1 + ctx.choice(3, "nrsp")
+
+    def mk(tag):
+        def cb(can_id, data, ts):
+            log.append((tag, can_id, bytes(data)))
+        return cb
+    order_req = []
+    for k in range(nreq_before):
+        net.subscribe(req_id, mk("q%d" % k))
+        order_req.append("q%d" % k)
+    node = canopen.LocalNode(nid, od)
+    net.add_node(node)          # the SDO server's handler sits between the application's callbacks
+    for k in range(nreq_after):
+        net.subscribe(req_id, mk("q%d" % (nreq_before + k)))
+        order_req.append("q%d" % (nreq_before + k))
+    order_rsp = []
+    for k in range(nrsp):
+        net.subscribe(rsp_id, mk("r%d" % k))
+        order_rsp.append("r%d" % k)
+    request = bytes([0x40, 0x00, 0x20, 0x00, 0, 0, 0, 0])
+    try:
+        net.notify(req_id, bytearray(request), 5.0)
+    except Exception as e:      # noqa
+        ctx.violation("C10/unexpected-exception/%s@%s" % (type(e).__name__, site(e)), "notify() raised %r" % (e,))
+    got_req = [(t, i) for t, i, d in log if t.startswith("q")]
+    got_rsp = [(t, i, d[0]) for t, i, d in log if t.startswith("r")]
+    if got_req != [(t, req_id) for t in order_req] or [(t, i) for t, i, c in got_rsp] != [(t, rsp_id) for t in order_rsp] or any(c != 0x4B for t, i, c in got_rsp):
+        ctx.violation("C10/callback-delivery/notify-entered-again-during-dispatch",
+                      "request 0x%X dispatched to %r (the node's SDO server answers in between, the answer 0x%X is dispatched inside): callbacks invoked %r" % (
+                          req_id, order_req, rsp_id, [(t, hex(i)) for t, i, d in log]))
+    ctx.probe("notify-entered-again-during-dispatch")
+    ctx.cover(("loopback", nreq_before, nreq_after, nrsp))
+
+
 def scenario(ctx):
     mode = ctx.choice(3, "mode")
     blk = ctx.choice(32, "blk")
+    if mode == 0 and ctx.choice(16, "loopback") == 1:
+        return _loopback(ctx)
     w = World(ctx)
     net = w.net
     if mode == 1:
